@@ -11,6 +11,8 @@ TRUSTED_BASE = ["harness/cache_corr.py worlds; store state snapshot/restore betw
 
 
 def run(ctx):
+    import translate_avs
+    translate_avs.check(ctx)       # _add_value_store re-read from caching.py and linked to Cache/Transform.v by a theorem
     uj = core.use_repo()
     rng = ctx.rng
     tc = transform_corr.TransformCampaign(ctx)
